@@ -49,6 +49,7 @@ def gen(rng, tier, sweep=None):
 
 class C02(Prop):
     id = "C02"
+    track_states = True
     quick_runs = 2500
     thorough_runs = 50000
     assumptions = [
@@ -137,6 +138,10 @@ class C02(Prop):
         info = res.obs.executors.get(0)
         if info is not None and info["flags"].broken is not None:
             f["broken:" + type(info["flags"].broken).__name__] = 1
+        # kill points actually hit: (operation index of the victim, signal) - counted as distinct in evidence
+        for fl in res.run.fault_log:
+            if fl[0] == "kill" and fl[2] != "already-dead" and fl[3] is True:
+                res.run.states.add("kp:%d:%d" % (fl[4], fl[2]))
         # where was the victim when it died (operation kind)
         for t in res.sched.tasks:
             if t.role == "worker-main" and t.proc.status is not None and t.proc.status[0] == "sig":
